@@ -4,7 +4,11 @@
 // symbolically like any other code.
 package zz_verifmodels
 
-import "unicode/utf8"
+import (
+	"io/fs"
+	"time"
+	"unicode/utf8"
+)
 
 type RuntimeError string
 
@@ -175,3 +179,36 @@ func FormatUint(v uint64, base int) string {
 	}
 	return string(buf[i:])
 }
+
+// ---------- virtual file system value types ----------
+
+type VFSError struct {
+	Op, Path, Msg string
+	NotExist      bool
+}
+
+func (e *VFSError) Error() string { return e.Op + " " + e.Path + ": " + e.Msg }
+
+// VFSCrash is the panic value with which the virtual file system interrupts
+// the operation at the armed crash point ("the process dies here").
+type VFSCrash struct{ Op string }
+
+type VFileInfo struct {
+	FName string
+	FDir  bool
+	FSize int64
+}
+
+func (i VFileInfo) Name() string { return i.FName }
+func (i VFileInfo) Size() int64  { return i.FSize }
+func (i VFileInfo) IsDir() bool  { return i.FDir }
+func (i VFileInfo) Sys() any     { return nil }
+func (i VFileInfo) Mode() fs.FileMode {
+	if i.FDir {
+		return fs.ModeDir | 0755
+	}
+	return 0644
+}
+func (i VFileInfo) ModTime() time.Time { return time.Time{} }
+
+var _ fs.FileInfo = VFileInfo{}
